@@ -178,7 +178,7 @@ def run(ctx):
             seen.add(sc.case_key(case))
     nfn = ctx.scale(60, 600)
     for _ in range(nfn):
-        out.failures.extend(oracle_userfn(gen_userfn(ctx.rng)))
+        out.failures.extend(sc.guarded(oracle_userfn, gen_userfn(ctx.rng), 'userfn:hang', 'userfn'))
     out.evaluations = len(cases) + nfn
     out.nontrivial = len(seen)
     out.rule = ('random equation blocks by stream (affine contractions / expansive / oscillating systems of 1-12 equations '
